@@ -761,6 +761,56 @@ func (c *SpecCtx) call(n *ECall) (Val, types.Type) {
 	case "wrapu64":
 		a, _ := arg(0)
 		return I(wrapTerm(types.Typ[types.Uint64], a.(Sc).T, false)), types.Typ[types.Uint64]
+	case "calls": // calls("funckey", receiver): ghost counter of calls to a function under contract
+		ks, ok := n.Args[0].(*EStr)
+		if !ok {
+			c.fail("calls(\"funckey\", receiver)")
+		}
+		key, err := x.eng.resolveKey(normKey(c.pkg, ks.V))
+		if err != nil {
+			c.fail("calls: %v", err)
+		}
+		if x.eng.contracts[key] == nil {
+			c.fail("calls: %s has no contract", key)
+		}
+		idx := "0"
+		if len(n.Args) > 1 {
+			v, _ := arg(1)
+			switch vv := v.(type) {
+			case Sc:
+				idx = vv.T
+			case IfaceV:
+				idx = vv.Ref
+			case AddrV:
+				idx = vv.Addr
+			}
+		}
+		h := x.heap(c.cur, callCounter(key), "(Array Int Int)")
+		return I(sx("select", h, idx)), tInt
+	case "sameheap": // sameheap("T.f"): the whole field heap is unchanged since the old state
+		str, ok := n.Args[0].(*EStr)
+		if !ok || c.old == nil {
+			c.fail("sameheap(\"T.f\") needs a two-state context")
+		}
+		k := strings.LastIndex(str.V, ".")
+		if k < 0 {
+			c.fail("sameheap(\"T.f\")")
+		}
+		t, err := x.eng.resolveType(c.pkg, str.V[:k])
+		if err != nil {
+			c.fail("sameheap: %v", err)
+		}
+		mc := &SpecCtx{x: x, cur: c.old, old: c.old, env: map[string]envEntry{}, pkg: c.pkg, qn: c.qn}
+		locs, err := x.fieldLocs(mc, t, str.V[k+1:], "")
+		if err != nil {
+			c.fail("sameheap: %v", err)
+		}
+		var eqs []string
+		for _, l := range locs {
+			srt := x.eng.heapSorts[l.heap]
+			eqs = append(eqs, sx("=", x.heap(c.cur, l.heap, srt), x.heap(c.old, l.heap, srt)))
+		}
+		return B(and(eqs...)), tBool
 	case "pow2":
 		a, _ := arg(0)
 		return I(x.pow2(a.(Sc).T)), tInt
